@@ -80,26 +80,32 @@ Init == /\ world = Pieces /\ imported = {} /\ files = <<>> /\ nextId = 0 /\ hist
 
 NewConns(B) == {c \in Touched(B) : Classify(files, imported, B, c).id = NoId}
 
-\* q: the batch as handed to FromPcap (a sequence - the order does not matter to the result);
+\* what one import writes: the new index file, the masks reported to the service, the next id.
 \* num: the numbering of the streams that are new
-ImportBatchNum(q, restart, num) ==
-    LET B   == Range(q)
-        T   == Touched(B)
-        cl  == [c \in T |-> Classify(files, imported, B, c)]
+BatchResult(fs, known, nid, B, num) ==
+    LET T   == Touched(B)
+        cl  == [c \in T |-> Classify(fs, known, B, c)]
         new == {c \in T : cl[c].id = NoId}
-    IN /\ q # <<>> /\ B \subseteq CapsW \ imported
+        idFor(c) == IF c \in new THEN num[c] ELSE cl[c].id
+    IN [file  |-> [id \in {idFor(c) : c \in T} |->
+                      LET c == CHOOSE x \in T : idFor(x) = id
+                      IN [conn |-> c, caps |-> PiecesOf(c) \cap (known \cup B)]],
+        masks |-> [add |-> {idFor(c) : c \in {x \in T : cl[x].cat = "added"}},
+                   upd |-> {idFor(c) : c \in {x \in T : cl[x].cat = "updated"}},
+                   rst |-> {idFor(c) : c \in {x \in T : cl[x].cat = "reset"}}],
+        next  |-> nid + Cardinality(new),
+        none  |-> T = {}]
+
+\* q: the batch as handed to FromPcap (a sequence - the order does not matter to the result)
+ImportBatchNum(q, restart, num) ==
+    LET B == Range(q) res == BatchResult(files, imported, nextId, B, num) IN
+       /\ q # <<>> /\ B \subseteq CapsW \ imported
        /\ \A i, j \in DOMAIN q : i # j => q[i] # q[j]
        /\ (hist = <<>>) => restart = "none"
-       /\ num \in Numberings(new, nextId)
-       /\ LET idFor(c) == IF c \in new THEN num[c] ELSE cl[c].id
-              file == [id \in {idFor(c) : c \in T} |->
-                         LET c == CHOOSE x \in T : idFor(x) = id
-                         IN [conn |-> c, caps |-> PiecesOf(c) \cap (imported \cup B)]]
-          IN /\ files' = IF T = {} THEN files ELSE Append(files, file)
-             /\ lastMasks' = [add |-> {idFor(c) : c \in {x \in T : cl[x].cat = "added"}},
-                              upd |-> {idFor(c) : c \in {x \in T : cl[x].cat = "updated"}},
-                              rst |-> {idFor(c) : c \in {x \in T : cl[x].cat = "reset"}}]
-       /\ nextId' = nextId + Cardinality(new)
+       /\ num \in Numberings(NewConns(B), nextId)
+       /\ files' = IF res.none THEN files ELSE Append(files, res.file)
+       /\ lastMasks' = res.masks
+       /\ nextId' = res.next
        /\ imported' = imported \cup B
        /\ hist' = Append(hist, [files |-> q, restart |-> restart])
        /\ UNCHANGED world
